@@ -136,14 +136,18 @@ def runDeposit (_inp : List String) (out : String) : Option Res :=
 (a) every honest proposal (built by the real PrepareProposal from the commit, untampered) is accepted and executes;
 (b) every tampered proposal whose bridge data differs is rejected; (c) no handler panics;
 (d) an operator's EVM address, once registered, never changes and is the address of its own key;
-(e) every stored validator-set signature was sent by the validator owning that slot (same checkpoint, same bytes). -/
+(e) every stored validator-set signature was sent by the validator owning that slot (same checkpoint, same bytes);
+(f) every stored oracle attestation sits in the slot of the validator that sent it (slot = its position in the validator
+    set of the checkpoint the snapshot was taken under; same snapshot, same bytes), and (g) every attestation a commit vote
+    carried for a known snapshot by a member of that set is in state after the next block. -/
 def runProposal (_inp : List String) (out : String) : Option Res :=
   let recs := out.splitOn " ;; "
   let keys : List (String × String) := ((recs.filter (·.startsWith "K ")).headD "K ").drop 2 |>.toString |> commaList |>.filterMap
     (fun kv => match kv.splitOn "=" with | [o, a] => some (o, a) | _ => none)
-  let init : Bool × String × List (String × String) × List String × List String × Nat × Nat := (true, "", [], [], [], 0, 0)
-  let (ok, note, _, _, _, nTamper, nHostile) := recs.foldl (fun acc rec =>
-    let (ok, note, evm, sigsSeen, sentAll, nT, nH) := acc
+  let init : Bool × String × List (String × String) × List String × List String × Nat × Nat × List String × List String × Nat × Nat :=
+    (true, "", [], [], [], 0, 0, [], [], 0, 0)
+  let (ok, note, _, _, _, nTamper, nHostile, _, _, _, nAtt) := recs.foldl (fun acc rec =>
+    let (ok, note, evm, sigsSeen, sentAll, nT, nH, attSeen, asentPrev, hPrev, nAtt) := acc
     if !ok then acc else
     let fs := fieldsOf rec
     if rec.startsWith "P " then
@@ -155,7 +159,7 @@ def runProposal (_inp : List String) (out : String) : Option Res :=
       let exts := (getF fs "exts").getD ""
       let panicky := (prep.splitOn "panic").length > 1 || (proc.splitOn "panic").length > 1 || (err.splitOn "panic").length > 1
       let good := !panicky && (if tamper == "-" then prep == "ok" && proc == "ACCEPT" && err == "" else (!changed || proc == "REJECT"))
-      (good, if good then note else s!"proposal: {rec.take 200}", evm, sigsSeen, sentAll, nT + (if tamper != "-" && changed then 1 else 0), nH + (if exts != "" then 1 else 0))
+      (good, if good then note else s!"proposal: {rec.take 200}", evm, sigsSeen, sentAll, nT + (if tamper != "-" && changed then 1 else 0), nH + (if exts != "" then 1 else 0), attSeen, asentPrev, hPrev, nAtt)
     else if rec.startsWith "X " then
       let evmNow := (commaList ((getF fs "evm").getD "")).filterMap (fun kv => match kv.splitOn "=" with | [o, a] => some (o, a) | _ => none)
       -- (d)
@@ -177,9 +181,35 @@ def runProposal (_inp : List String) (out : String) : Option Res :=
           | _ => false)
         | _ => false)
       let sentNow := commaList ((getF fs "sent").getD "")
-      let good := stable && own && slotOk
-      (good, if good then note else s!"pre-block state (stable={stable} own={own} slots={slotOk}): {rec.take 160}", evmNow, sigsNow, sentAll ++ sentNow, nT, nH)
+      -- (f), (g)
+      let hNow := ((getF fs "h").bind parseNat?).getD 0
+      let attsNow := commaList ((getF fs "atts").getD "")
+      let aprev := (commaList ((getF fs "aprev").getD "")).filterMap (fun p => match p.splitOn ":" with
+        | [sn, _n, addrs] => some (sn, addrs.splitOn "/") | _ => none)
+      let asentNow := commaList ((getF fs "asent").getD "")
+      let newAtts := attsNow.filter (fun x => !attSeen.contains x)
+      let attOk := newAtts.all (fun x => match x.splitOn "=" with
+        | [slot, sig] => (match slot.splitOn ":" with
+          | [sn, idx] =>
+            let addr := ((aprev.find? (·.1 == sn)).bind (fun p => p.2[(parseNat? idx).getD 0]?)).getD "?"
+            asentPrev.any (fun snt => match snt.splitOn ":" with
+              | [op, sn', sig'] => sn' == sn && sig' == sig && evmNow.any (fun (o, a) => o == op && a == addr)
+              | _ => false)
+          | _ => false)
+        | _ => false)
+      let complete := hNow != hPrev + 1 || asentPrev.all (fun snt => match snt.splitOn ":" with
+        | [op, sn, sig] =>
+          (match aprev.find? (·.1 == sn), evm.find? (·.1 == op) with
+           | some p, some (_, a) =>
+             (match p.2.findIdx? (· == a) with
+              | some i => attsNow.contains s!"{sn}:{i}={sig}" || attsNow.any (fun x => x.startsWith s!"{sn}:{i}=")
+              | none => true)
+           | _, _ => true)
+        | _ => true)
+      let good := stable && own && slotOk && attOk && complete
+      (good, if good then note else s!"pre-block state (stable={stable} own={own} slots={slotOk} attslots={attOk} attcomplete={complete}): {rec.take 160}", evmNow, sigsNow, sentAll ++ sentNow, nT, nH,
+       attsNow, asentNow, hNow, nAtt + newAtts.length)
     else acc) init
-  some { agree := true, monitor := ok, nontrivial := decide (nTamper ≥ 1 ∨ nHostile ≥ 2), model := "", note := note }
+  some { agree := true, monitor := ok, nontrivial := decide (nTamper ≥ 1 ∨ nHostile ≥ 2), model := s!"atts={nAtt}", note := note }
 
 end Driver
